@@ -37,6 +37,7 @@ M = {
  "C15-2": ("C15", "_in_place_op nulls the target's gradient before the tracking-off early return", "tensor holding a gradient is the target of an in-place op inside no_autodiff: loses its gradient"),
  "C15-3": ("C15", "backward(): constant check before the tracking check", "backward() on a constant tensor of a tracked graph, called inside no_autodiff: clears the graph"),
  "C01-2": ("C01", "BroadcastTo.backward_var does its own reduction with grad.reshape((-1,)+a.shape).sum(0)", "broadcast_to stretching an inner axis of length 1 that is preceded by a longer axis ((3,1)->(3,4)): wrong gradient values"),
+ "C01-3": ("C01", "max/min backward over all axes writes through out.ravel()[argmax] (a copy for non-C-contiguous data)", "max/min over all elements of a transposed / Fortran-ordered / layout-preserving operand: the path contributes zero gradient"),
  "C05-4": ("C05", "_is_int_array_index only recognises ndarray / list index entries", "x[idx] = b with a repeated integer index spelled as a tuple / integer Tensor: the 'last write wins' masking of the value's gradient is skipped"),
  "C06-4": ("C06", "_op no longer detaches a disconnected view before choosing the base of a new view of it", "view taken from a view that an earlier backward() released: wrong .base (the previous epoch's base), .grad reads None after the next backward"),
  "C07-4": ("C07", "same code change as C06-4, found independently for C07", "repeating t = v[...]; (3*t).sum().backward() on a released view v: the gradient differs between iterations"),
